@@ -58,11 +58,16 @@ def finish(prop, pc, tier, seed, results, kani_res, wall, update_baseline=False)
         canary_ok += r.canary_total - len(r.canary_missing)
         for fn in r.canary_missing:
             undecided.append("[%s] vacuity guard: canary `ensures false` on %s did not fail (contradictory requires/assumption?)" % (r.name, fn))
+        rej = getattr(r, "rejected", [])
+        rej_fns = {fn: msg for fn, msg in rej if fn}
         for oid, o in r.obligations.items():
             if prop in o["props"] or "*" in o["props"]:
+                # a unit the verifier refused (unsupported construct in a changed function ...) has discharged NOTHING
                 obligations[oid] = {"id": oid, "backend": "verus", "unit": r.name, "clause": o["text"], "fn": o["fn"],
-                                    "status": "failed" if oid in r.failed else "discharged",
+                                    "status": "failed" if oid in r.failed else ("undecided" if rej else "discharged"),
                                     "diag": r.failed.get(oid)}
+                if rej and o["fn"] in rej_fns and oid not in r.failed:
+                    obligations[oid]["rejected"] = rej_fns[o["fn"]]
     kani_info = None
     if kani_res is not None:
         kani_info = {"cmd": kani_res.get("cmd"), "wall_s": kani_res.get("wall"), "harnesses": {}}
@@ -138,6 +143,32 @@ def finish(prop, pc, tier, seed, results, kani_res, wall, update_baseline=False)
             o["status"] = "known-finding"
             continue
         violations.append(o)
+
+    # obligations of a function the verifier refused to process: no longer discharged. They are undecided, unless a concrete
+    # input replayed on the real binary shows the behaviour the clause pins down is gone: then it is a violation WITH a failing input.
+    by_fn = {}
+    for oid, o in sorted(obligations.items()):
+        if o["status"] == "undecided" and o.get("rejected") and oid not in known_by_obl:
+            by_fn.setdefault(o["fn"], []).append(o)
+    for fn, obls in sorted(by_fn.items()):
+        sys.path.insert(0, HERE)
+        import replay as _rp2
+        chosen = None
+        for exact in (True, False):      # a probe registered for exactly one obligation names that obligation
+            for o in obls:
+                if chosen or (not exact and o["id"].endswith(".safety") and len(obls) > 1):
+                    continue
+                cand = []
+                for key, pl in probes.items():
+                    if o["id"] == key or (not exact and (o["id"].startswith(key + ".") or (key.endswith("*") and o["id"].startswith(key[:-1])))):
+                        cand += pl
+                if cand and any(_rp2.run_probe(pr)[0] is False for pr in cand):
+                    chosen = o
+        if chosen:
+            chosen["status"] = "failed"
+            chosen["diag"] = ("the verifier rejected the changed function %s (%s): its obligations %s, discharged on the unchanged tree, are no longer "
+                              "discharged; the failing input below is replayed on the real binary" % (fn, chosen["rejected"], [o["id"] for o in obls]))
+            violations.append(chosen)
 
     os.makedirs(os.path.join(OUT, "replays"), exist_ok=True)
     vio_lines = []
